@@ -194,7 +194,9 @@ func TestWorker(t *testing.T) {
 					continue
 				}
 				reported[f.Key] = true
-				res.Violations = append(res.Violations, minimise(t, sc, cfg, seed, runSeed, r, f, known))
+				v := minimise(t, sc, cfg, seed, runSeed, r, f, known)
+				v.History = &core.HistoryInfo{Worker: w, Workers: W, ScalePct: scale}
+				res.Violations = append(res.Violations, v)
 			}
 			if len(reported) >= 2 {
 				break
@@ -286,6 +288,42 @@ func TestReplay(t *testing.T) {
 			curFile = f
 			core.BeatSink = func(l string) { setCur(l) }
 		}
+	}
+	if os.Getenv("VERIF_REPLAY_HISTORY") != "" && rf.History != nil {
+		// re-execute the finder's whole run sequence up to the failing run
+		h := rf.History
+		var last *core.Run
+		n := 0
+	outer:
+		for _, b := range sc.Plan(rf.Property, rf.Config.Tier) {
+			count := b.Count
+			if !b.Exhaustive {
+				count = count * h.ScalePct / 100
+				if count == 0 {
+					count = 1
+				}
+			}
+			for i := h.Worker; i < count; i += h.Workers {
+				cfg := core.Config{Property: rf.Property, Scenario: rf.Scenario, Tier: rf.Config.Tier, Mode: b.Mode, Index: i, Group: b.Group}
+				core.Beat("harness")
+				last = execute(t, sc, cfg, core.NewSeedChooser(core.Mix(rf.Seed, rf.Property+"/"+b.Mode, i/max(b.Group, 1))), known)
+				n++
+				if b.Mode == rf.Config.Mode && i == rf.Config.Index {
+					break outer
+				}
+			}
+		}
+		rep := false
+		if last != nil {
+			for _, f := range last.Findings {
+				if f.Key == rf.Key {
+					rep = true
+					fmt.Printf("DETAIL %s\n", f.Detail)
+				}
+			}
+			fmt.Printf("REPLAY key=%s signature=%s reproduced=%v history_runs=%d\n", rf.Key, last.Signature(), rep, n)
+		}
+		return
 	}
 	var ch *core.Chooser
 	if rf.Tape == nil && rf.RunSeed == 0 {
